@@ -54,6 +54,12 @@ func (f *Max) Call(s *slip.Scope, args slip.List, depth int) slip.Object {
 	}
 	pos++
 	for ; pos < len(args); pos++ {
+		if cmp, ok := exactCompare(max, args[pos]); ok {
+			if cmp < 0 {
+				max = args[pos]
+			}
+			continue
+		}
 		arg, mx := slip.NormalizeNumber(args[pos], max)
 		switch ta := arg.(type) {
 		case slip.Fixnum:
